@@ -212,9 +212,11 @@ def alertsOf (H : Str) (t : Topo) (cands : List Sig) (thr defaultTol : Rat) : Li
 def jsonScanFull (H : Str) (t : Topo) (db : List Sig) (thr defaultTol : Rat) : List MatchResult :=
   alertsOf H t db thr defaultTol
 
-/-- JSON backend, exact mode: first signature whose confidence (tolerance 0.0) reaches 0.99 -/
+/-- JSON backend, exact mode: first signature WITH THE SAME TOPOLOGY HASH whose confidence
+    (tolerance 0.0) reaches 0.99 -/
 def jsonScanExact (H : Str) (t : Topo) (db : List Sig) : Option MatchResult :=
-  (db.map (fun s => matchSignature H t s 0)).find? (fun r => r.conf.ge (99/100))
+  ((db.filter (fun s => decide (s.topoHash = H))).map (fun s => matchSignature H t s 0)).find?
+    (fun r => r.conf.ge (99/100))
 
 /-- `strings.Trim(lit, "\"'`")` -/
 def trimQuotes (s : Str) : Str :=
